@@ -214,6 +214,13 @@ def tasks(ctx):
         ts.append(Task(f, f, keep=NP, overrides=ac.OV))
     ts.append(Task("(*oam.OAM).TickDMA", "(*oam.OAM).TickDMA", args=pc.tickdma_args, keep=NP))
     ts += [nopanic_opcode_task(ch, i) for i, ch in enumerate(cc.opcode_chunks(16))]
+    # the renderer is used through its contract inside ppu.EndMachineCycle: its own body (tile map / tile data / OAM indexing for
+    # every scroll, window, LCDC and object configuration) is swept here
+    import props.C15 as c15
+    t = LemmaTask("lemma:pixel", c15.pixel_lemma, [c15.P + "renderPixel", c15.P + "findWindowPixel", c15.P + "findBackgroundPixel", c15.P + "readTilePixel"])
+    t.keep = lambda name: "no-panic" in name
+    ts.append(t)
+    ts.append(Task(c15.P + "readTilePixel", c15.P + "readTilePixel", keep=NP))
     return filter_tasks(ts)
 
 
